@@ -126,26 +126,25 @@ fn inline_table_keyvals(
 }
 
 fn keyval(input: &mut Input<'_>) -> ModalResult<(Vec<Key>, (Key, Item))> {
-    (
-        key,
-        cut_err((
-            one_of(KEYVAL_SEP)
-                .context(StrContext::Expected(StrContextValue::CharLiteral('.')))
-                .context(StrContext::Expected(StrContextValue::CharLiteral('='))),
-            (ws.span(), value, ws.span()),
-        )),
-    )
-        .map(|(key, (_, v))| {
-            let mut path = key;
-            let key = path.pop().expect("grammar ensures at least 1");
+    let mut path = key.parse_next(input)?;
+    let (_, v) = cut_err((
+        one_of(KEYVAL_SEP)
+            .context(StrContext::Expected(StrContextValue::CharLiteral('.')))
+            .context(StrContext::Expected(StrContextValue::CharLiteral('='))),
+        (
+            ws.span(),
+            check_dotted_recursion(path.len(), value),
+            ws.span(),
+        ),
+    ))
+    .parse_next(input)?;
+    let key = path.pop().expect("grammar ensures at least 1");
 
-            let (pre, v, suf) = v;
-            let pre = RawString::with_span(pre);
-            let suf = RawString::with_span(suf);
-            let v = v.decorated(pre, suf);
-            (path, (key, Item::Value(v)))
-        })
-        .parse_next(input)
+    let (pre, v, suf) = v;
+    let pre = RawString::with_span(pre);
+    let suf = RawString::with_span(suf);
+    let v = v.decorated(pre, suf);
+    Ok((path, (key, Item::Value(v))))
 }
 
 #[cfg(test)]
